@@ -78,6 +78,8 @@ const (
 
 const c25Test = "TestVerifC25Crash"
 
+var c25NotedHasBAL bool
+
 // ---------------------------------------------------------------- gated key-value store
 
 const (
@@ -612,6 +614,8 @@ type c25Run struct {
 	m    *c25Model
 	desc []string // history description
 
+	st   *vs.S
+
 	crossing bool // some cycle's boundary cut through a side branch
 	stats    c25Stats
 }
@@ -954,6 +958,13 @@ func (r *c25Run) cycle(idx int) *c25Cycle {
 			if h != m.canon[n].hash {
 				rt.Fatalf("%s: ReadAllHashes(%d) still lists the non-canonical block %x", ctx, n, h[:4])
 			}
+		}
+	}
+	// observation only (block access lists are not among the accessors of the statement)
+	for n := uint64(1); n < cy.f1 && !c25NotedHasBAL; n++ {
+		if b := m.canon[n]; b.balRLP != nil && !HasAccessList(r.db, b.hash, b.num) && len(ReadAccessListRLP(r.db, b.hash, b.num)) > 0 {
+			c25NotedHasBAL = true
+			r.st.Note("observation (not asserted): HasAccessList returns false for a frozen canonical block whose access list ReadAccessListRLP still returns (HasAccessList only looks at the key-value store)")
 		}
 	}
 	// boundary crossing: a side branch with blocks on both sides of the new boundary
@@ -1301,7 +1312,7 @@ func c25Property(rt *rapid.T, st *vs.S) {
 		rt.Fatalf("VERIF-HARNESS-BUG: mkdir: %v", err)
 	}
 	defer os.RemoveAll(root)
-	r := &c25Run{rt: rt, root: root, log: crashkv.NewLog(), m: &c25Model{views: map[common.Hash]*c25View{}, salt: rapid.Uint64().Draw(rt, "salt")}}
+	r := &c25Run{rt: rt, st: st, root: root, log: crashkv.NewLog(), m: &c25Model{views: map[common.Hash]*c25View{}, salt: rapid.Uint64().Draw(rt, "salt")}}
 	kv := crashkv.Wrap(memorydb.New(), r.log)
 	r.db, err = c25Open(kv, root)
 	if err != nil {
